@@ -175,10 +175,48 @@ def s1(chk: Check, proj: Project, w) -> None:
     sources = {n.id for n in ast.walk(loop.target) if isinstance(n, ast.Name)}
     apps = [c for c in calls(f, "append")]
     chk.floor("S1-appends", len(apps), 2)
+    inert: Set[str] = set()
+    # attribute NAMES cannot be escaped in HTML: every name that is emitted has passed a guard that refuses the characters
+    # which end a name (whitespace, quotes, '>', '/', '=')
+    keyv = norm(loop.target.elts[0]) if isinstance(loop.target, ast.Tuple) else None
+    guards = []
+    for iff in [x for x in ast.walk(loop) if isinstance(x, ast.If) and x.body and isinstance(x.body[-1], (ast.Raise, ast.Continue))]:
+        # the search alone (or as one alternative of an `or`) must decide: a conjunct next to it can switch the guard off
+        alts = iff.test.values if isinstance(iff.test, ast.BoolOp) and isinstance(iff.test.op, ast.Or) else [iff.test]
+        for c in alts:
+            if isinstance(c, ast.Call) and isinstance(c.func, ast.Attribute) and c.func.attr == "search" and c.args and keyv and keyv in {x.id for x in ast.walk(c.args[0]) if isinstance(x, ast.Name)}:
+                guards.append((iff, c))
+    need = [" ", "\t", "\n", "\f", "\r", '"', "'", ">", "/", "="]
+    if not guards:
+        chk.violated("S1", "attributes:attributes_to_string:name-guard", m.loc(loop),
+                     "attribute names are only HTML-escaped, and escaping leaves whitespace, '=' and '/' alone: the name `x onclick=alert(1)` is emitted as `x onclick=alert(1)=\"v\"`, which a parser reads as the attributes `x` and `onclick` - the name breaks out into an attribute of the attacker's choice")
+    else:
+        iff, c = guards[0]
+        from ..regexlang import Lang, Seg
+        from .markers import compiled_regex
+
+        gname = norm(c.func.value)
+        try:
+            pat, fl, _n = compiled_regex(proj, "attributes", gname)
+            lang = Lang(pat, fl)
+            missing = [ch for ch in need if not lang.accepts_all([Seg.lit(ch)])[0]]
+            first_app = min(a.lineno for a in apps)
+            dominates = iff in loop.body and iff.lineno < first_app
+            okg = not missing and dominates
+            if okg and all(lang.accepts_all([Seg.lit(ch)])[0] for ch in '<>"\''):
+                inert.add(keyv)
+            chk.ob("S1", "attributes:attributes_to_string:name-guard", m.loc(iff), okg,
+                   f"`{gname}` ({pat!r}) refuses every name containing whitespace, a quote, '>', '/' or '=' before anything is appended" if okg else
+                   (f"the name guard `{gname}` ({pat!r}) lets {missing!r} through: such a character ends the attribute name, the rest of the name is read as further attributes" if missing else
+                    "the name guard does not run before every append (it is nested under another condition or comes after one)"))
+        except AnalysisError as e:
+            chk.undecided("S1", "attributes:attributes_to_string:name-guard", m.loc(iff), f"guard pattern not foldable: {e}")
     lists = set()
     for c in apps:
         lists.add(norm(c.func.value))  # type: ignore[union-attr]
         ok, why = _sanitised(c.args[0], sources) if c.args else (False, "no argument")
+        if not ok and c.args and isinstance(c.args[0], ast.Name) and c.args[0].id in inert:
+            ok, why = True, "a name the guard has cleared of quotes, angle brackets and separators (nothing left to escape but '&', which parsers do not decode in names)"
         chk.ob("S1", f"attributes:attributes_to_string:{short(c, 60)}", m.loc(c), ok, f"appended part is {why}" if ok else f"`{short(c)}` emits {why} into the attribute string without escaping: a quote or angle bracket in it breaks out of the attribute")
     rets = [s for s in stmts(f) if isinstance(s, ast.Return) and s.value is not None]
     for r in rets:
@@ -307,8 +345,9 @@ def s3(chk: Check, proj: Project, w) -> None:
     ok4 = bool(skip) and {norm(x) for x in (skip[0].test.values if isinstance(skip[0].test, ast.BoolOp) else [skip[0].test])} == {f"{v} is None", f"{v} is False"}
     chk.ob("S3", "attributes:attributes_to_string:skip-none-false", m2.loc(skip[0]) if skip else m2.loc(f2), ok4, "None and False are skipped" if ok4 else "the skip condition is not exactly `value is None or value is False`")
     bare = [s for s in (loop.body if loop else []) if isinstance(s, ast.If) and norm(s.test) == f"{v} is True"]
-    ok5 = bool(bare) and any(isinstance(c, ast.Call) and last_attr(c.func) in ("conditional_escape", "escape") and norm(c.args[0]) == k for s in bare[0].body for c in ast.walk(s))
-    chk.ob("S3", "attributes:attributes_to_string:true-renders-bare-key", m2.loc(bare[0]) if bare else m2.loc(f2), ok5, "True renders the escaped bare key")
+    # (whether the key still needs escaping is S1's business: a name cleared by the guard may be appended as it is)
+    ok5 = bool(bare) and any(isinstance(c, ast.Call) and last_attr(c.func) == "append" and c.args and (norm(c.args[0]) == k or (isinstance(c.args[0], ast.Call) and last_attr(c.args[0].func) in ("conditional_escape", "escape", "str") and norm(c.args[0].args[0]) == k)) for s in bare[0].body for c in ast.walk(s))
+    chk.ob("S3", "attributes:attributes_to_string:true-renders-bare-key", m2.loc(bare[0]) if bare else m2.loc(f2), ok5, "True renders the bare key")
     # append_attributes: concatenation with one space, no sink
     m3, f3 = proj.func("attributes", "append_attributes")
     aug = [s for s in stmts(f3) if isinstance(s, ast.AugAssign)]
